@@ -621,7 +621,7 @@ func (c *SpecCtx) field(x TV, fname string) TV {
 			st := p.Elem()
 			l := c.e.fieldLoc(ref, st, idx)
 			ft := st.Underlying().(*types.Struct).Field(idx).Type()
-			if l.Kind == locInst && (shapeKindOf(ft) == kStruct) {
+			if l.Kind == locInst && (shapeKindOf(ft) == kStruct || shapeKindOf(ft) == kArrayOfComposite) {
 				// keep as pointer to nested instance for further selection
 				cur = TV{Sc{l.Ref}, types.NewPointer(ft)}
 				// but if this is the last step, load the value
@@ -802,6 +802,12 @@ func (c *SpecCtx) call(n *ECall) TV {
 		}
 		k := c.e.mapKey(c.eval(n.Args[1]).V, mi.kt)
 		return TV{Sc{sel(c.e.mapDom(c.heap, mi, a.V.(Sc).T), k)}, mathBool}
+	case "calls": // calls("callee"): number of calls made by this function to callees whose name ends so
+		st, ok := n.Args[0].(*EStr)
+		if !ok {
+			c.fail("calls() needs a string literal")
+		}
+		return TV{Sc{c.e.callCount(c.heap, st.V)}, mathInt}
 	case "nth": // nth(tuple, i): component of a multi-valued pure call
 		a := c.eval(n.Args[0])
 		tv, ok := a.V.(TupleV)
